@@ -15,7 +15,7 @@ import plsscorr
 WORDS = ['ZZZQ', 'QQXJ7', 'XENOLITH', 'BASIN', 'MARGIN', 'THEREOF', 'BATHE', 'KOALL', 'OVERLAND', 'Franklin', 'wherein', 'Proof', 'QAND', 'zzthe']
 # foreign phrases that only a case-INSENSITIVE comparison (re.IGNORECASE lets 'i' match U+0130 / U+0131) would take for the connector ' all in'
 # words without two adjacent `\w` characters: dotted / hyphenated single letters, scripts whose vowel signs are combining marks (Thai, Devanagari)
-SPARSE_WORDS = ['U.S.A.x', 'R.O.W.y', 'a-b-c-d', '\u0e17\u0e35\u0e48\u0e14\u0e34\u0e19', '\u092d\u0942\u092e\u093f']
+SPARSE_WORDS = ['Q.Z.J.y', 'X.Q.K.x', 'a-b-c-d', '\u0e17\u0e35\u0e48\u0e14\u0e34\u0e19', '\u092d\u0942\u092e\u093f']
 FOLD_WORDS = ['ALL \u0130N', 'all \u0131n', 'All \u0131N']
 SHORT_WORDS = ['QXZ', 'XQ7', 'ZQJ', 'QX', 'Q']   # 3 characters: the shortest that must still be reported; 1-2: see known finding C04-short-unused
 MODES = ['', 'segment', 'sec_within', 'sec_colon_required', 'sec_colon_cautious', 'TRS_desc', 'desc_STR', 'copy_all', 'segment,sec_within', 'ocr_scrub']
